@@ -134,7 +134,7 @@ Proof.
   - apply Z.compare_eq in E1. apply Z.compare_eq in E2. subst. rewrite Z.compare_refl. eapply IH; eassumption.
   - apply Z.compare_eq in E1. subst. rewrite E2. reflexivity.
   - apply Z.compare_eq in E2. subst. rewrite E1. reflexivity.
-  - apply Z.compare_lt_iff in E1. apply Z.compare_lt_iff in E2. assert (L : x < z) by lia. apply Z.compare_lt_iff in L. rewrite L. reflexivity.
+  - change (x < y) in E1. change (y < z) in E2. assert (L : x < z) by lia. change ((x ?= z) = Lt) in L. rewrite L. reflexivity.
 Qed.
 
 Lemma scale_pos : 0 < scale1075.
@@ -168,11 +168,11 @@ Qed.
 Ltac zcmp :=
   repeat match goal with
          | H : Some _ = Some _ |- _ => injection H as H
-         | H : (_ ?= _) = Lt |- _ => apply Z.compare_lt_iff in H
+         | H : (?a ?= ?b) = Lt |- _ => change (a < b) in H
          | H : (_ ?= _) = Gt |- _ => apply Z.compare_gt_iff in H
          | H : (_ ?= _) = Eq |- _ => apply Z.compare_eq_iff in H
          | |- Some _ = Some _ => f_equal
-         | |- (_ ?= _) = Lt => apply Z.compare_lt_iff
+         | |- (?a ?= ?b) = Lt => change (a < b)
          | |- (_ ?= _) = Gt => apply Z.compare_gt_iff
          | |- (_ ?= _) = Eq => apply Z.compare_eq_iff
          end.
